@@ -162,9 +162,16 @@ func WriteBodyFixedSize(w network.Writer, r io.Reader, size int64) error {
 	return err
 }
 
+// maxBodyPrealloc bounds the memory that is reserved for a body on the word of the peer alone
+// (Content-Length, chunk size); a longer body is appended piecewise as its bytes arrive.
+const maxBodyPrealloc = 4 * 1024 * 1024
+
 func appendBodyFixedSize(r network.Reader, dst []byte, n int) ([]byte, error) {
 	if n == 0 {
 		return dst, nil
+	}
+	if n > maxBodyPrealloc {
+		return appendBodyPiecewise(r, dst, n)
 	}
 
 	offset := len(dst)
@@ -186,6 +193,29 @@ func appendBodyFixedSize(r network.Reader, dst []byte, n int) ([]byte, error) {
 	}
 	copy(dst[offset:], buf)
 	r.Skip(len(buf)) // nolint: errcheck
+	return dst, nil
+}
+
+// appendBodyPiecewise appends n body bytes to dst in steps of at most maxBodyPrealloc bytes, so that a
+// declared length that never materialises (or an absurd one) cannot make the process reserve it up front.
+func appendBodyPiecewise(r network.Reader, dst []byte, n int) ([]byte, error) {
+	offset := len(dst)
+	for n > 0 {
+		step := n
+		if step > maxBodyPrealloc {
+			step = maxBodyPrealloc
+		}
+		buf, err := r.Peek(step)
+		if err != nil {
+			if err == io.EOF {
+				err = io.ErrUnexpectedEOF
+			}
+			return dst[:offset], err
+		}
+		dst = append(dst, buf...)
+		r.Skip(len(buf)) // nolint: errcheck
+		n -= len(buf)
+	}
 	return dst, nil
 }
 
